@@ -287,6 +287,24 @@ func (h *c17H) generate() error {
 		if err := h.targetFamilies(src, en, i < nFull); err != nil {
 			return err
 		}
+		// the same store exported after earlier exports in the same temporary directory: a longer store whose
+		// export failed at its last step / succeeded, a shorter one, two in a row
+		longer := func() int { return en + 3 + r.Intn(40) }
+		shorter := func() int { return r.Intn(en) }
+		xe := func(mode string, k int) string { return fmt.Sprintf("xe %s %d %d", mode, k, 1+r.Int63n(1<<40)) }
+		earlier := [][]string{
+			{xe("f", longer())}, {xe("s", longer())}, {xe("f", shorter())}, {xe("s", shorter())},
+			{xe("f", longer()), xe("f", longer()+50)}, {xe("s", longer()), xe("f", longer())},
+		}
+		for ei, pre := range earlier {
+			if i >= nFull && ei != i%len(earlier) && ei != 0 {
+				continue
+			}
+			srcE := append(append([]string{}, pre...), src...)
+			if err := h.run("after-earlier-export:"+strings.Fields(pre[0])[1], srcE, "i"); err != nil {
+				return err
+			}
+		}
 	}
 
 	// 2. a long chain crossing the batch boundary of the import (inserted directly)
